@@ -211,12 +211,13 @@ def run(tier):
                 jobs.append((cli, "generic/%s/%s" % (site, text), site_project(site, ("raw", text), extra_defs=GENERIC_DEFS), mode,
                              {"site": site, "position": "generic-instantiation", "kind": "generic-struct", "type": None}))
     # precondition variant: the named type is not defined in the project but covered by a type mapping
-    for (plabel, pf) in positions:
-        t = pf(rg.N("Timestamp"))
-        for site in SITES:
-            for mode in ("none", "zod"):
-                jobs.append((cli, "mapped/%s/%s" % (site, plabel), site_project(site, t), mode,
-                             {"site": site, "position": plabel, "kind": "mapped", "type": t, "config": {"type_mappings": {"Timestamp": "number"}}}))
+    for target in ("number", "Date", "bigint"):      # a primitive, a built-in object type, a lower-case built-in: none is exported by types.ts
+        for (plabel, pf) in (positions if target == "number" else positions[:10]):
+            t = pf(rg.N("Timestamp"))
+            for site in SITES:
+                for mode in ("none", "zod"):
+                    jobs.append((cli, "mapped->%s/%s/%s" % (target, site, plabel), site_project(site, t), mode,
+                                 {"site": site, "position": plabel, "kind": "mapped->" + target, "type": t, "config": {"type_mappings": {"Timestamp": target}}}))
     # types that are not in the documented table but name no type of their own either (fixed-size arrays, slices): whatever the
     # tool prints for them must still resolve — the precondition (every NAMED type is defined or mapped) holds
     for text in ("[u8; 32]", "[f32; 3]", "[[f32; 4]; 4]", "Vec<[u8; 16]>", "Option<[i32; 2]>", "&'static [u8]", "HashMap<String, [u8; 4]>", "([u8; 2], String)",
